@@ -20,6 +20,8 @@
  *   client id raw|x|rich [f8|f8b|f16|f16b|f32|f32b]         ok   (SetPixelFormat; default: server's format)
  *   setenc id raw|x|rich|enc:<list>  (SetEncodings again)   ok   (list: raw,copyrect,x,rich,pos in sending order)
  *   copy x1 y1 x2 y2 dx dy  (rfbDoCopyRect, dest rectangle) ok
+ *   scale id n   (SetScale 1/n; requests of that client are then in scaled coordinates;
+ *                 scripts with `scale` are judged by the direct oracles only)           ok
  *   ptr id x y buttons                                      pos=X,Y pc=<id|-> moved=<id>:<b>,...
  *   req id incr x y w h                                     ok
  *   failnext id k       (k-th write from now on fails)      ok
@@ -56,6 +58,7 @@ static const vfmt FMTS[] = {
 static vfmt cfmt[MAXC]; static int CB[MAXC], xl[MAXC];
 static rfbScreenInfoPtr scr;
 static int W, H, BPP;
+static int PW[MAXC], PH[MAXC];         /* size of client i's picture: W x H, or the scaled size after `scale` */
 
 #define CURMAX 66000     /* largest bitmap / pixel array of a script's cursor, bytes */
 /* the cursor as the SCRIPT gave it (for the direct oracle) */
@@ -117,9 +120,17 @@ static int alive(int id) {
 }
 
 /* ---------------------------------------------------------------- hooks */
+/* all server-side scaled copies of the framebuffer (screen->scaledScreenNext chain) */
+static uint64_t scaledhash(void) {
+  uint64_t h = 0x9e3779b97f4a7c15ull; rfbScreenInfoPtr p;
+  for (p = scr->scaledScreenNext; p; p = p->scaledScreenNext)
+    h = h * 1099511628211ull ^ vh_fnv((unsigned char *)p->frameBuffer, (size_t)p->paddedWidthInBytes * p->height);
+  return h;
+}
+static uint64_t sbefore[MAXC], safter[MAXC];
 static void hook_display(rfbClientPtr cl) {
   int i = idof(cl); if (i < 0) return;
-  st[i].before = fbhash();
+  st[i].before = fbhash(); sbefore[i] = scaledhash();
 }
 static void hook_pre(rfbClientPtr cl, sraRegionPtr u, sraRegionPtr c, int dx, int dy) {
   int i = idof(cl); if (i < 0) return;
@@ -129,6 +140,7 @@ static void hook_pre(rfbClientPtr cl, sraRegionPtr u, sraRegionPtr c, int dx, in
 static void hook_finished(rfbClientPtr cl, int result) {
   int i = idof(cl); if (i < 0) return;
   st[i].res = result ? 1 : 0; st[i].after = fbhash();   /* also runs when nothing had to be sent */
+  safter[i] = scaledhash();
 }
 
 /* ---------------------------------------------------------------- reference composition */
@@ -276,22 +288,23 @@ static int decode(int id, vh_buf *shape, int *havepos, int *posx, int *posy) {
       enc = be32(o->p + off + 8); off += 12;
       if (enc == rfbEncodingRaw) {
         size_t len = (size_t)w * h * CB[id];
-        if (off + len > o->n || x + w > W || y + h > H) return -1;
+        int PWi = PW[id];
+        if (off + len > o->n || x + w > PW[id] || y + h > PH[id]) return -1;
         for (j = 0; j < h; j++) {
-          memcpy(pic[id] + ((size_t)(y + j) * W + x) * CB[id], o->p + off + (size_t)j * w * CB[id], (size_t)w * CB[id]);
-          memset(cov[id] + (size_t)(y + j) * W + x, 1, w);
+          memcpy(pic[id] + ((size_t)(y + j) * PWi + x) * CB[id], o->p + off + (size_t)j * w * CB[id], (size_t)w * CB[id]);
+          memset(cov[id] + (size_t)(y + j) * PWi + x, 1, w);
         }
         off += len;
       } else if (enc == rfbEncodingCopyRect) {
         int sx, sy; unsigned char *tmp;
         if (off + 4 > o->n) return -1;
         sx = be16(o->p + off); sy = be16(o->p + off + 2); off += 4;
-        if (x + w > W || y + h > H || sx + w > W || sy + h > H) return -1;
+        if (x + w > PW[id] || y + h > PH[id] || sx + w > PW[id] || sy + h > PH[id]) return -1;
         tmp = (unsigned char *)malloc((size_t)w * h * CB[id] + 1);
-        for (j = 0; j < h; j++) memcpy(tmp + (size_t)j * w * CB[id], pic[id] + ((size_t)(sy + j) * W + sx) * CB[id], (size_t)w * CB[id]);
+        for (j = 0; j < h; j++) memcpy(tmp + (size_t)j * w * CB[id], pic[id] + ((size_t)(sy + j) * PW[id] + sx) * CB[id], (size_t)w * CB[id]);
         for (j = 0; j < h; j++) {
-          memcpy(pic[id] + ((size_t)(y + j) * W + x) * CB[id], tmp + (size_t)j * w * CB[id], (size_t)w * CB[id]);
-          memset(ccov[id] + (size_t)(y + j) * W + x, 1, w);
+          memcpy(pic[id] + ((size_t)(y + j) * PW[id] + x) * CB[id], tmp + (size_t)j * w * CB[id], (size_t)w * CB[id]);
+          memset(ccov[id] + (size_t)(y + j) * PW[id] + x, 1, w);
         }
         free(tmp);
       } else if (enc == (int32_t)rfbEncodingXCursor || enc == (int32_t)rfbEncodingRichCursor) {
@@ -463,6 +476,7 @@ static int op_client(int id, const char *k, const char *fname) {
   }
   vh_drain(c); vh_buf_reset(&c->out);
   pic[id] = (unsigned char *)calloc((size_t)W * H, CB[id]);
+  PW[id] = W; PH[id] = H;
   cov[id] = (unsigned char *)calloc((size_t)W * H, 1);
   ccov[id] = (unsigned char *)calloc((size_t)W * H, 1);
   return 0;
@@ -512,6 +526,25 @@ int main(void) {
       if (x1 < 0 || y1 < 0 || x1 >= x2 || y1 >= y2 || x2 > W || y2 > H || x1 - dx < 0 || y1 - dy < 0 || x2 - dx > W || y2 - dy > H) { puts("bad-op"); continue; }
       rfbDoCopyRect(scr, x1, y1, x2, y2, dx, dy);
       puts("ok");
+    } else if (!strcmp(tok[0], "scale") && n == 3) {
+      int id = atoi(tok[1]), f = atoi(tok[2]); unsigned char b[4]; vh_conn *c;
+      if (!alive(id) || f < 1 || f > 8 || W / f < 1 || H / f < 1) { puts("bad-op"); continue; }
+      c = &conns[id];
+      vh_drain(c); vh_buf_reset(&c->out);
+      b[0] = rfbSetScale; b[1] = (unsigned char)f; b[2] = 0; b[3] = 0;
+      vh_send(c, b, 4);
+      rfbProcessClientMessage(c->cl);
+      vh_drain(c);
+      /* the server answers with rfbResizeFrameBuffer (type 4, pad, width, height) */
+      if (c->out.n != 6 || c->out.p[0] != rfbResizeFrameBuffer) { puts("scale-failed"); vh_buf_reset(&c->out); continue; }
+      PW[id] = be16(c->out.p + 2); PH[id] = be16(c->out.p + 4);
+      vh_buf_reset(&c->out);
+      free(pic[id]); free(cov[id]); free(ccov[id]);
+      pic[id] = (unsigned char *)calloc((size_t)PW[id] * PH[id], CB[id]);
+      cov[id] = (unsigned char *)calloc((size_t)PW[id] * PH[id], 1);
+      ccov[id] = (unsigned char *)calloc((size_t)PW[id] * PH[id], 1);
+      fullreq[id] = 0;
+      printf("ok %dx%d\n", PW[id], PH[id]);
     } else if (!strcmp(tok[0], "setenc") && n == 3) {
       int id = atoi(tok[1]);
       int kd;
@@ -532,12 +565,12 @@ int main(void) {
       putchar('\n');
     } else if (!strcmp(tok[0], "req") && n == 7) {
       int id = atoi(tok[1]), inc = atoi(tok[2]), x = atoi(tok[3]), y = atoi(tok[4]), w = atoi(tok[5]), h = atoi(tok[6]); unsigned char b[10];
-      if (!alive(id) || x < 0 || y < 0 || w < 1 || h < 1 || x + w > W || y + h > H) { puts("bad-op"); continue; }
+      if (!alive(id) || x < 0 || y < 0 || w < 1 || h < 1 || x + w > PW[id] || y + h > PH[id]) { puts("bad-op"); continue; }
       b[0] = rfbFramebufferUpdateRequest; b[1] = inc ? 1 : 0; b[2] = x >> 8; b[3] = x; b[4] = y >> 8; b[5] = y;
       b[6] = w >> 8; b[7] = w; b[8] = h >> 8; b[9] = h;
       vh_send(&conns[id], b, 10);
       rfbProcessClientMessage(conns[id].cl);
-      if (x == 0 && y == 0 && w == W && h == H) fullreq[id] = 1;
+      if (x == 0 && y == 0 && w == PW[id] && h == PH[id]) fullreq[id] = 1;
       puts("ok");
     } else if (!strcmp(tok[0], "failnext") && n == 3) {
       int id = atoi(tok[1]);
@@ -546,14 +579,14 @@ int main(void) {
       puts("ok");
     } else if (!strcmp(tok[0], "pump") && n == 1) {
       int i; uint64_t h0 = fbhash();
-      for (i = 0; i < MAXC; i++) { memset(&st[i], 0, sizeof st[i]); if (used[i] && cov[i]) { memset(cov[i], 0, (size_t)W * H); memset(ccov[i], 0, (size_t)W * H); } }
+      for (i = 0; i < MAXC; i++) { memset(&st[i], 0, sizeof st[i]); if (used[i] && cov[i]) { memset(cov[i], 0, (size_t)PW[i] * PH[i]); memset(ccov[i], 0, (size_t)PW[i] * PH[i]); } }
       rfbProcessEvents(scr, 0);
       for (i = 0; i < MAXC; i++) {
         vh_buf shape = {0, 0, 0}; int havepos = 0, px = 0, py = 0, perr = 0, dead;
         if (!used[i]) continue;
         vh_drain(&conns[i]);
         dead = !alive(i);
-        if (st[i].n == 0) { printf("c%d %s\n", i, dead ? "dead" : "n=0"); if (!dead && fullreq[i]) oracle_client(i); if (!dead) inv_client(i); continue; }
+        if (st[i].n == 0) { printf("c%d %s\n", i, dead ? "dead" : "n=0"); if (!dead && fullreq[i] && PW[i] == W && PH[i] == H) oracle_client(i); if (!dead && PW[i] == W && PH[i] == H) inv_client(i); continue; }
         if (st[i].res && !dead) perr = decode(i, &shape, &havepos, &px, &py);
         printf("c%d n=%d res=%d before=%016llx painted=%016llx after=%016llx cur=%d,%d ucl=%d", i, st[i].n, st[i].res,
                (unsigned long long)st[i].before, (unsigned long long)st[i].painted, (unsigned long long)st[i].after,
@@ -561,14 +594,16 @@ int main(void) {
         if (st[i].res && !dead) {
           printf(" shape="); if (shape.n) fwrite(shape.p, 1, shape.n, stdout); else putchar('-');
           if (havepos) printf(" pos=%d,%d", px, py); else printf(" pos=-");
-          printf(" cov=%016llx pic=%016llx ccov=%016llx%s\n", (unsigned long long)vh_fnv(cov[i], (size_t)W * H),
-                 (unsigned long long)vh_fnv(pic[i], (size_t)W * H * CB[i]),
-                 (unsigned long long)vh_fnv(ccov[i], (size_t)W * H), perr ? " PARSE-ERROR" : "");
+          printf(" cov=%016llx pic=%016llx ccov=%016llx%s\n", (unsigned long long)vh_fnv(cov[i], (size_t)PW[i] * PH[i]),
+                 (unsigned long long)vh_fnv(pic[i], (size_t)PW[i] * PH[i] * CB[i]),
+                 (unsigned long long)vh_fnv(ccov[i], (size_t)PW[i] * PH[i]), perr ? " PARSE-ERROR" : "");
         } else printf(" closed\n");
         /* direct oracle, part 1: the application's framebuffer is bit-identical after the update */
         if (st[i].after != st[i].before) printf("oracle c%d BAD framebuffer changed by update (res=%d)\n", i, st[i].res);
-        if (st[i].res && !dead && fullreq[i]) oracle_client(i);
-        if (st[i].res && !dead && !perr) inv_client(i);
+        /* ... and so is every scaled copy of it that the server keeps for scaled clients */
+        if (safter[i] != sbefore[i]) printf("oracle c%d BAD scaled framebuffer copy changed by update (res=%d)\n", i, st[i].res);
+        if (st[i].res && !dead && fullreq[i] && PW[i] == W && PH[i] == H) oracle_client(i);
+        if (st[i].res && !dead && !perr && PW[i] == W && PH[i] == H) inv_client(i);
         fullreq[i] = 0;
         free(shape.p);
       }
